@@ -732,6 +732,11 @@ impl Server {
             
             // Frames kept back while the client was blocked come first
             frames_to_process.append(&mut conn.deferred_frames);
+            if let Some(msg) = conn.deferred_protocol_error.take() {
+                // ... and behind them the malformed frame that ended that read: nothing more is read
+                protocol_error = Some(msg);
+                return Ok(());
+            }
             
             // Read data from connection
             match conn.read() {
@@ -923,10 +928,18 @@ impl Server {
         // A protocol violation is answered with an error instead of silence, after the replies
         // to the commands that preceded it; the connection is then closed
         if let Some(msg) = protocol_error {
-            let line: String = msg.chars().map(|c| if c == '\r' || c == '\n' { ' ' } else { c }).collect();
-            responses.push(RespFrame::error(format!("ERR {}", line)));
-            should_close = true;
-            needs_immediate_flush = true;
+            if self.is_connection_blocked(id) {
+                // The batch stopped at a command that blocked: the frames behind it wait (deferred_frames), and
+                // so does the answer to the malformed frame behind them - it comes after their replies
+                self.connections.with_connection(id, |conn| {
+                    conn.deferred_protocol_error = Some(msg);
+                });
+            } else {
+                let line: String = msg.chars().map(|c| if c == '\r' || c == '\n' { ' ' } else { c }).collect();
+                responses.push(RespFrame::error(format!("ERR {}", line)));
+                should_close = true;
+                needs_immediate_flush = true;
+            }
         }
         
         // Third phase: send responses with special handling for commands needing immediate delivery
